@@ -2,9 +2,10 @@
    Each input line: space-separated integers in hexadecimal with an optional leading '-'.
    The line is converted to the extracted [z list], passed to [Model.dispatch], and the
    resulting [z list] is printed the same way.  No arithmetic happens here. *)
-open Model
+(* the extracted module defines its own [string] (Coq's inductive); nothing is opened *)
+module M = Model
 
-let pos_of_hex (s : string) (i0 : int) : positive option =
+let pos_of_hex (s : String.t) (i0 : int) : M.positive option =
   (* bits MSB first *)
   let n = String.length s in
   let acc = ref None in
@@ -17,27 +18,27 @@ let pos_of_hex (s : string) (i0 : int) : positive option =
     for b = 3 downto 0 do
       let bit = (d lsr b) land 1 = 1 in
       acc := (match !acc with
-              | None -> if bit then Some XH else None
-              | Some p -> Some (if bit then XI p else XO p))
+              | None -> if bit then Some M.XH else None
+              | Some p -> Some (if bit then M.XI p else M.XO p))
     done
   done;
   !acc
 
-let z_of_hex (s : string) : z =
+let z_of_hex (s : String.t) : M.z =
   if String.length s = 0 then failwith "empty token" else
   let neg = s.[0] = '-' in
   match pos_of_hex s (if neg then 1 else 0) with
-  | None -> Z0
-  | Some p -> if neg then Zneg p else Zpos p
+  | None -> M.Z0
+  | Some p -> if neg then M.Zneg p else M.Zpos p
 
-let hex_of_pos (p : positive) : string =
+let hex_of_pos (p : M.positive) : String.t =
   (* collect bits LSB first *)
   let buf = Buffer.create 32 in
   let bits = ref [] in
   let rec go p = match p with
-    | XH -> bits := true :: !bits
-    | XO q -> bits := false :: !bits; go q
-    | XI q -> bits := true :: !bits; go q in
+    | M.XH -> bits := true :: !bits
+    | M.XO q -> bits := false :: !bits; go q
+    | M.XI q -> bits := true :: !bits; go q in
   (* go pushes LSB first, so !bits ends MSB first after full traversal reversed: fix below *)
   go p;
   (* !bits is now MSB ... LSB?  go pushes LSB first onto the head, so the head is the MSB *)
@@ -53,15 +54,15 @@ let hex_of_pos (p : positive) : string =
     | _ -> failwith "impossible" in
   emit l; Buffer.contents buf
 
-let hex_of_z (x : z) : string =
-  match x with Z0 -> "0" | Zpos p -> hex_of_pos p | Zneg p -> "-" ^ hex_of_pos p
+let hex_of_z (x : M.z) : String.t =
+  match x with M.Z0 -> "0" | M.Zpos p -> hex_of_pos p | M.Zneg p -> "-" ^ hex_of_pos p
 
 let () =
   let out = Buffer.create 65536 in
   (try while true do
     let l = input_line stdin in
     let toks = List.filter (fun s -> s <> "") (String.split_on_char ' ' l) in
-    let res = (try List.map hex_of_z (dispatch (List.map z_of_hex toks)) with Failure m -> ["ERR"; m] | Stack_overflow -> ["ERR"; "stack"]) in
+    let res = (try List.map hex_of_z (M.dispatch (List.map z_of_hex toks)) with Failure m -> ["ERR"; m] | Stack_overflow -> ["ERR"; "stack"]) in
     Buffer.add_string out (String.concat " " res); Buffer.add_char out '\n';
     if Buffer.length out > 60000 then (print_string (Buffer.contents out); Buffer.clear out)
   done with End_of_file -> ());
